@@ -164,8 +164,16 @@ class FitWorld:
             kw["sampler_ind_params"] = dict(spp)
         return kw
 
-    def run(self):
-        """Run the real fit under seams + observers.  Returns the exception (or None)."""
+    def run(self, rerun: bool = False):
+        """Run the real fit under seams + observers.  Returns the exception (or None).
+
+        rerun=True: the *same algorithm object* is run once more on a freshly built model (documented use of
+        `algorithm_factory(settings).run(model, dataset)`); the draws of the second run are addressed as run 2."""
+        if rerun:
+            self.cfg = dict(self.cfg, gseed=(self.cfg["gseed"] + 1) & 0xFFFFFFFF)   # (other draws, other cohort: a second, independent run)
+            self._build()
+            self.k = 0
+            self.call_no = 0
         import leaspy.algo.algo_with_annealing as awa
         import leaspy.algo.fit.mcmc_saem as ms
         import leaspy.models.mcmc_saem_compatible as msc
@@ -260,6 +268,15 @@ class FitWorld:
             es.enter_context(observe(sg.IndividualGibbsSampler, "sample", b_sample, a_sample))
             self.stdout = so
             try:
+                if rerun and getattr(self, "algo", None) is not None:
+                    algo = self.algo
+                    if not self.model.is_initialized:
+                        torch.manual_seed(cfg["gseed"] & 0x7FFFFFFF)
+                        self.model.initialize(self.dataset)
+                    self.state = self.model.state
+                    self._emit("on_start")
+                    algo.run(self.model, self.dataset)
+                    raise _RerunDone()
                 kw_algo = self.algo_kwargs()
                 late = None
                 if cfg.get("via_load_parameters") and cfg.get("n_burn_in_iter") is not None and not cfg.get("annealing"):
@@ -283,12 +300,18 @@ class FitWorld:
                 self.state = self.model.state
                 self._emit("on_start")
                 algo.run(self.model, self.dataset)
+            except _RerunDone:
+                pass
             except Exception as e:  # classified by the monitors
                 exc = e
                 self.log.add("fit_raised", type(e).__name__, str(e)[:80])
         self.exc = exc
         self._emit("on_end", exc)
         return exc
+
+
+class _RerunDone(Exception):
+    pass
 
 
 def gen_fit_cfg(st: Stream, *, kinds=None, max_iter=12, allow_mixture=False) -> dict:
